@@ -193,6 +193,13 @@ func (env *ByteEnv) evalInt(e ast.Expr, v int) (int64, bool) {
 	if c, ok := IntConst(env.Info, e); ok {
 		return c, true
 	}
+	// pointers: nil is 0, a fresh allocation is 1
+	if IsNil(env.Info, e) {
+		return 0, true
+	}
+	if isFreshAlloc(env.Info, e) {
+		return 1, true
+	}
 	if id, ok := e.(*ast.Ident); ok && env.cur != nil {
 		if n, ok := env.cur[env.Info.ObjectOf(id)]; ok {
 			return n &^ symFlag, true
@@ -506,6 +513,9 @@ func (env *ByteEnv) step(x *V, store map[types.Object]int64, v int, unt map[type
 		}
 	}
 	basicZero := func(obj types.Object) bool {
+		if _, isPtr := obj.Type().Underlying().(*types.Pointer); isPtr {
+			return true // nil
+		}
 		b, ok := obj.Type().Underlying().(*types.Basic)
 		return ok && b.Info()&(types.IsInteger|types.IsBoolean) != 0
 	}
@@ -593,6 +603,21 @@ func (env *ByteEnv) step(x *V, store map[types.Object]int64, v int, unt map[type
 						set(obj, 0, false)
 					}
 				}
+			}
+		}
+	case *ast.ValueSpec:
+		for i, name := range n.Names {
+			obj := env.Info.ObjectOf(name)
+			if obj == nil {
+				continue
+			}
+			if len(n.Values) == len(n.Names) {
+				val, known := env.evalAny(n.Values[i], v)
+				set(obj, val, known)
+			} else if len(n.Values) == 0 && basicZero(obj) {
+				set(obj, 0, true)
+			} else {
+				set(obj, 0, false)
 			}
 		}
 	case *ast.IncDecStmt:
@@ -808,8 +833,15 @@ func (env *ByteEnv) Traces(g *Graph, starts []*V, emit func(*V, *ByteState) stri
 			stack = stack[:len(stack)-1]
 			x := it.x
 			env.cur = it.store
-			if (stop != nil && stop(x)) || x == g.Exit || x == g.Panic {
+			if stop != nil && stop(x) {
 				out[v][it.aux] = true
+				continue
+			}
+			if x == g.Exit || x == g.Panic {
+				if stop == nil {
+					out[v][it.aux] = true
+				}
+				// with a stop predicate only the paths that reach a stop vertex count
 				continue
 			}
 			aux, n := it.aux, it.n
